@@ -15,27 +15,34 @@ from rules.c13 import k_loop_protocol, loop_with_solver_run
 # K = the largest optimum that can occur, per loop, with the one-line argument and witness (DESIGN C03.R2)
 RANGE_TABLE = {
     "MinFlowDecomp.solve": (["self.G.number_of_edges()"], 0,
-                            "a flow decomposition may need |E| paths; witness: single-edge graph, optimum 1 = |E|"),
+                            "a flow decomposition may need |E| paths, and every subpath constraint may need a path of its own; witnesses: "
+                            "single-edge graph, optimum 1 = |E|; a1,a2,a3->m->b1,b2,b3 with 7 pairwise incompatible constraints, optimum 7 > |E| = 6",
+                            ["len(self.subpath_constraints)"]),
     "MinFlowDecompCycles.solve": (["self.G.number_of_edges()"], 0,
-                                  "witness: single-edge graph, optimum 1 = |E|"),
-    "MinPathCover.solve": (["self.G.number_of_edges()"], 0, "witness: single-edge graph, optimum 1 = |E|"),
-    "MinPathCoverCycles.solve": (["self.G.number_of_edges()"], 0, "witness: single-edge graph, optimum 1 = |E|"),
+                                  "witnesses: single-edge graph, optimum 1 = |E|; pairwise incompatible subset constraints need a walk each",
+                                  ["len(self.subset_constraints)"]),
+    "MinPathCover.solve": (["self.G.number_of_edges()"], 0,
+                           "witnesses: single-edge graph, optimum 1 = |E|; pairwise incompatible subpath constraints need a path each",
+                           ["len(self.subpath_constraints)"]),
+    "MinPathCoverCycles.solve": (["self.G.number_of_edges()"], 0,
+                                 "witnesses: single-edge graph, optimum 1 = |E|; pairwise incompatible subset constraints need a walk each",
+                                 ["len(self.subset_constraints)"]),
     "MinGenSet.solve": (["len(self.initial_numbers)", "len(self.numbers)"], 1,
-                        "the prefix-difference multiset always generates; witness numbers=[3], total=10 needs {3,7} = len+1"),
+                        "the prefix-difference multiset always generates; witness numbers=[3], total=10 needs {3,7} = len+1", []),
 }
 
 
-def dominates(expr: ast.AST, need: Poly, atoms: List[str]) -> Optional[bool]:
+def dominates(expr: ast.AST, need: Poly, atoms: List[str], plus: List[str] = ()) -> Optional[bool]:
     """expr >= need for all non-negative values of the atoms?  True / False / None (cannot decide)."""
     if isinstance(expr, ast.Call) and dotted(expr.func) == "max" and expr.args and not expr.keywords:
-        res = [dominates(a, need, atoms) for a in expr.args]
+        res = [dominates(a, need, atoms, plus) for a in expr.args]
         if any(r is True for r in res):
             return True
         if any(r is False for r in res):
             return False        # no argument is guaranteed to reach the need; one provably does not
         return None
     if isinstance(expr, ast.Call) and dotted(expr.func) == "min" and expr.args and not expr.keywords:
-        res = [dominates(a, need, atoms) for a in expr.args]
+        res = [dominates(a, need, atoms, plus) for a in expr.args]
         if all(r is True for r in res):
             return True
         if any(r is False for r in res):
@@ -54,7 +61,7 @@ def dominates(expr: ast.AST, need: Poly, atoms: List[str]) -> Optional[bool]:
                 t[m2] = t.get(m2, 0) + c
             q = Poly(t)
         d = q - need
-        r = nonneg_given(d, nonneg_atoms=[atoms[-1]])
+        r = nonneg_given(d, nonneg_atoms=[atoms[-1]] + list(plus))
         if r is True:
             return True
         if r is False:
@@ -68,7 +75,7 @@ def range_rule(prog: Program, rep, RID: str, cname: str, mname: str):
     if loop is None:
         raise AnalysisError(f"{cname}.{mname}: k-loop not found")
     key = f"{cname}.{mname}"
-    atoms, extra, why = RANGE_TABLE[key]
+    atoms, extra, why, plus = RANGE_TABLE[key]
     it = loop.iter
     if not (isinstance(it, ast.Call) and dotted(it.func) == "range" and len(it.args) >= 2):
         raise AnalysisError(f"{key}: k-loop iterator is not range(lo, hi): {norm(it)}")
@@ -98,15 +105,17 @@ def range_rule(prog: Program, rep, RID: str, cname: str, mname: str):
                     hi = _S().visit(hi)
     canonical = atoms[-1]
     need = Poly.atom(canonical) + Poly.const(extra + 1)          # exclusive bound must be >= K + 1
-    r = dominates(hi, need, atoms)
+    for a in plus:
+        need = need + Poly.atom(a)
+    r = dominates(hi, need, atoms, plus)
     if r is True:
-        rep.ok(RID, f"{key}:upper-bound", f"exclusive upper bound `{norm(hi)}` >= K+1 with K = {canonical}+{extra} ({why})",
+        rep.ok(RID, f"{key}:upper-bound", f"exclusive upper bound `{norm(hi)}` >= K+1 with K = {" + ".join([canonical] + list(plus))}+{extra} ({why})",
                f.loc(loop), sample={"loop": norm(it), "K": f"{canonical}+{extra}", "argument": why})
     elif r is False:
-        rep.violation(RID, f"{key}:upper-bound", f"the k-loop's exclusive upper bound `{norm(hi)}` is below K+1 = {canonical}+{extra + 1}: "
+        rep.violation(RID, f"{key}:upper-bound", f"the k-loop's exclusive upper bound `{norm(hi)}` is below K+1 = {" + ".join([canonical] + list(plus))}+{extra + 1}: "
                       f"an instance whose optimum is K is reported unsolved ({why})", f.loc(loop))
     else:
-        raise AnalysisError(f"{key}: cannot compare upper bound `{norm(hi)}` with {canonical}+{extra + 1}")
+        raise AnalysisError(f"{key}: cannot compare upper bound `{norm(hi)}` with {" + ".join([canonical] + list(plus))}+{extra + 1}")
 
 
 # ------------------------------------------------------------------------------- width call convention
